@@ -115,7 +115,7 @@ def check_dynamic(env, rec, prog, mode, ref, seedinfo):
     element must carry, besides the echoed ids the model expects, exactly one further id per wrapped instance it is
     a root of - the same id on all roots of that instance, on no other element, distinct from every other id."""
     it = ref[2]
-    wrapped = {i.no for i in it.instances if i.parent is None}
+    wrapped = {i.no for i in it.instances if i.parent is None and not getattr(i, "pyrendered", False)}
     if not wrapped:
         return True
     built = env.build(prog)
